@@ -52,6 +52,25 @@ ScopeBlock(stmts, i, st) ==
                   ScopeBlock(stmts, i + 1, ScopeBlock(s.body, 1, Use(st, ExprIds(s.cond))))
              [] s.k = "reset" -> ScopeBlock(stmts, i + 1, st)
 
+\* does the program call random() anywhere?  (C15: rows are a function of the text, the signal list and the driver's
+\* responses "apart from values drawn by random")
+RECURSIVE ExprRandom(_)
+ExprRandom(e) ==
+  CASE e.k \in {"num", "id"} -> FALSE
+    [] e.k = "un"  -> ExprRandom(e.e)
+    [] e.k = "bin" -> ExprRandom(e.l) \/ ExprRandom(e.r)
+    [] e.k = "fn"  -> e.name = "random" \/ \E i \in DOMAIN e.args : ExprRandom(e.args[i])
+
+RECURSIVE UsesRandom(_)
+UsesRandom(stmts) ==
+  \E i \in DOMAIN stmts :
+     LET s == stmts[i]
+     IN  CASE s.k = "let" -> ExprRandom(s.e)
+           [] s.k = "row" -> \E j \in DOMAIN s.entries : s.entries[j].k \in {"expr", "bits"} /\ ExprRandom(s.entries[j].e)
+           [] s.k = "loop" -> ExprRandom(s.max) \/ UsesRandom(s.body)
+           [] s.k = "while" -> ExprRandom(s.cond) \/ UsesRandom(s.body)
+           [] OTHER -> FALSE
+
 \* decls: Seq([name, e]) -- the declare statements
 Reads(prog, decls) ==
   ScopeBlock(prog, 1, [scopes |-> <<{}>>, reads |-> {}]).reads
